@@ -68,7 +68,9 @@ pub fn catch<T>(f: impl FnOnce() -> T) -> Result<T, PanicInfo> {
     install();
     QUIET.with(|q| *q.borrow_mut() = true);
     LAST.with(|l| *l.borrow_mut() = None);
+    crate::kit::watch::enter();
     let r = catch_unwind(AssertUnwindSafe(f));
+    crate::kit::watch::leave();
     QUIET.with(|q| *q.borrow_mut() = false);
     match r {
         Ok(v) => Ok(v),
